@@ -704,7 +704,7 @@ function evalBundle(js) {
   return new Function('return ' + js)()
 }
 
-function createRoot(job, groupList, ctx, data) {
+function createRoot(job, groupList, ctx, data, childState) {
   const cs = new ge.ComponentSpace()
   const cfg = job.config || {}
   let rootDef = null
@@ -734,7 +734,9 @@ function createRoot(job, groupList, ctx, data) {
       generics: c.generics,
       options,
       properties,
-      data: c.root ? data : clone(dec(c.data || {})),
+      // a child's own state (changed by `child_state` ops) is what new instances start with, in the
+      // live world and in every reference creation alike
+      data: c.root ? data : () => clone(childState && childState[c.is] !== undefined ? childState[c.is] : dec(c.data || {})),
       methods,
       template,
     })
@@ -747,7 +749,7 @@ function createRoot(job, groupList, ctx, data) {
 // A child component's "fresh creation" inside its host is not a pure creation: the runtime creates it
 // with default property values and then updates it. The pure reference for a child is the same
 // component created on its own with the current property values as its creation-time data.
-function standaloneChildShadow(job, groupList, childIs, props) {
+function standaloneChildShadow(job, groupList, childIs, props, childState) {
   const ctx = newCtx(true)
   const saved = CTX
   CTX = ctx
@@ -769,7 +771,8 @@ function standaloneChildShadow(job, groupList, childIs, props) {
       if (typeof content !== 'function') throw new Error('no template ' + c.path)
       const template = { groupList, content: wrapContent(content, c.is, ctx) }
       if (cfg.updateMode) template.updateMode = cfg.updateMode
-      const def = cs.defineComponent({ is: c.is, using: c.using || {}, options, properties, data: clone(dec(c.data || {})), methods: {}, template })
+      const own = childState && childState[c.is] !== undefined ? childState[c.is] : dec(c.data || {})
+      const def = cs.defineComponent({ is: c.is, using: c.using || {}, options, properties, data: clone(own), methods: {}, template })
       if (c.is === childIs) target = def
     }
     if (!target) return null
@@ -780,12 +783,12 @@ function standaloneChildShadow(job, groupList, childIs, props) {
   }
 }
 
-function freshTree(job, groupList, data) {
+function freshTree(job, groupList, data, childState) {
   const ctx = newCtx(true)
   const saved = CTX
   CTX = ctx
   try {
-    const root = createRoot(job, groupList, ctx, clone(data))
+    const root = createRoot(job, groupList, ctx, clone(data), childState ? clone(childState) : undefined)
     return { s: S(root), ctx, root }
   } finally {
     CTX = saved
@@ -810,6 +813,7 @@ function newCtx(quiet) {
     scriptValues: null,
     evBindings: new WeakMap(),
     delivered: [],
+    childState: {},
   }
 }
 
@@ -977,7 +981,7 @@ function runWorld(job) {
   const D0 = dec(job.data)
   let root
   try {
-    root = createRoot(job, groupList, ctx, clone(D0))
+    root = createRoot(job, groupList, ctx, clone(D0), ctx.childState)
   } catch (e) {
     CTX = null
     if (/^[\w$]+ is not iterable/.test(String(e && e.message))) {
@@ -1041,7 +1045,7 @@ function runWorld(job) {
   }
   // creation must equal creation (sanity of the serialiser / reference model)
   {
-    const f0 = freshTree(job, groupList, curD())
+    const f0 = freshTree(job, groupList, curD(), ctx.childState)
     if (f0.s !== S(root)) {
       CTX = null
       return { id: job.id, status: 'unexecutable', reason: 'two creations with the same data differ (serialiser or generator not deterministic): ' + classifyMismatch(S(root), f0.s) }
@@ -1124,7 +1128,7 @@ function runWorld(job) {
     if (ctx.c11) violation('C11', ctx.c11.class, ctx.c11.detail)
     let fr
     try {
-      fr = freshTree(job, groupList, curD())
+      fr = freshTree(job, groupList, curD(), ctx.childState)
     } catch (e) {
       ended = 'fresh_creation_throws'
       bump(ctx, 'discard.fresh_creation_throws')
@@ -1147,7 +1151,7 @@ function runWorld(job) {
       for (const ch of collectChildren(root)) {
         let alone
         try {
-          alone = standaloneChildShadow(job, groupList, ch.is, ch.data)
+          alone = standaloneChildShadow(job, groupList, ch.is, ch.data, ctx.childState)
         } catch (e) {
           bump(ctx, 'discard.standalone_child_throws')
           continue
@@ -1384,6 +1388,64 @@ function runWorld(job) {
           bump(ctx, 'probe.c11.put_checked')
         }
         afterFlush('model@' + step)
+      } else if (kind === 'child_state' || kind === 'child_state_splice') {
+        // a child component changes its own state; every instance of that component does the same,
+        // so that the state is a function of the history and a reference creation can start from it
+        const is = op[1]
+        const def = (job.components || []).find((c) => c.is === is)
+        if (!def) {
+          bump(ctx, 'step.op_skipped')
+          continue
+        }
+        if (dataGroup._$pendingChanges && dataGroup._$pendingChanges.length) {
+          root.applyDataUpdates()
+          shadowDirty = false
+          afterFlush('prechild@' + step)
+          if (ended || res.violation) break
+        }
+        // (the instances as they are once the host's queued changes are applied)
+        const insts = collectChildren(root).filter((c) => c.is === is)
+        if (!insts.length) {
+          bump(ctx, 'step.op_skipped')
+          continue
+        }
+        if (ctx.childState[is] === undefined) ctx.childState[is] = clone(dec(def.data || {}))
+        const state = ctx.childState[is]
+        const p = resolvePath(state, op[2])
+        if (p === null) {
+          bump(ctx, 'step.op_skipped')
+          continue
+        }
+        if (kind === 'child_state') {
+          const v = dec(op[3])
+          if (!shadowSet(state, p, clone(v))) {
+            bump(ctx, 'step.op_skipped')
+            continue
+          }
+          ctx.log.push(`child_state <${is}> x${insts.length} ${enc(p)} ${enc(v)}`)
+          for (const c of insts) {
+            c.replaceDataOnPath(p, clone(v))
+            c.applyDataUpdates()
+          }
+          bump(ctx, 'fault.child_state_write')
+        } else {
+          const arr = getPath(state, p)
+          if (!Array.isArray(arr)) {
+            bump(ctx, 'step.op_skipped')
+            continue
+          }
+          const at = op[3] % (arr.length + 1)
+          const del = Math.min(op[4], arr.length - at)
+          const ins = dec(op[5])
+          arr.splice(at, del, ...clone(ins))
+          ctx.log.push(`child_state_splice <${is}> x${insts.length} ${enc(p)} ${at} ${del} ${enc(ins)}`)
+          for (const c of insts) {
+            c.spliceArrayDataOnPath(p, at, del, clone(ins))
+            c.applyDataUpdates()
+          }
+          bump(ctx, 'fault.child_state_splice')
+        }
+        afterFlush(kind + '@' + step)
       } else if (kind === 'child_set') {
         const cs = collectChildren(root).filter((c) => Object.prototype.hasOwnProperty.call(c.data, op[2]))
         if (!cs.length) {
@@ -1448,7 +1510,7 @@ function runWorld(job) {
       if (!res.violation && kind !== 'model' && kind !== 'child_set') {
         let freshOk = false
         try {
-          freshTree(job, groupList, curD())
+          freshTree(job, groupList, curD(), ctx.childState)
           freshOk = true
         } catch (e2) {
           freshOk = false
